@@ -55,6 +55,7 @@ type Ctx struct {
 	Obs       []*Obligation
 	Functions map[string]bool // functions whose bodies were analysed
 	Notes     []string
+	Extra     map[string]interface{} // merged into the evidence's coverage object
 	keys      map[string]int
 }
 
@@ -330,6 +331,9 @@ func (c *Ctx) Finish(known *KnownFile, start time.Time, explanation, notDecided 
 		"checker_cmd":            fmt.Sprintf("/verif/check.sh %s %s", c.Prop, c.Tier),
 		"trusted_base":           trusted,
 		"build_context":          map[string]interface{}{"GOOS": orDefault(c.GOOS, "linux"), "tests": c.WithTests},
+	}
+	for k, v := range c.Extra {
+		cov[k] = v
 	}
 	ev := map[string]interface{}{
 		"property_id": c.Prop,
